@@ -58,3 +58,9 @@ package rueidishook
 // WithHook / Dedicate wrap: the returned client is a hookclient (resp. dedicated) carrying the same hook
 //@ func WithHook
 //@   ensures [C43 wraps] typeis(result, *hookclient)
+
+// Nodes: every client of the returned map is wrapped (visited(a): key a has been yielded by the range loop)
+//@ func hookclient.Nodes
+//@   modifies *
+//@   ensures [C43 every-node-is-wrapped] forall a string :: has(result, a) ==> typeis(result[a], *hookclient)
+//@   loop 0: invariant [C43] nodes != nil ==> (forall a string :: visited(a) ==> (has(nodes, a) && typeis(nodes[a], *hookclient)))
